@@ -216,4 +216,30 @@ example := @Limits.hundred_received_accepted
 
 end data
 
+/-- **Known finding `c15-dot-stuffed-received`, machine-checked on the model.**  The loop detection
+does not see a line that carries a transparency dot: for every `n` there is a header of `n` lines
+each of which is *stored* as a `Received:` field (the dot removed) and none of which counts as a hop.
+Together with `within_limits_queued` (a run within the counted limits is queued) this is why the
+clause "a message with more than 100 Received fields is refused" holds for the fields the server
+counts, not for the fields the stored message has. -/
+theorem hop_limit_blind_to_stuffed_dot (n : Nat) :
+    let ls := List.replicate n (DOT :: (QsmtpModel.Data.receivedName ++ [32, 120]))
+    QsmtpModel.Data.Limits.receivedCount (QsmtpModel.Data.Limits.hdrBlock ls) = 0 ∧
+      (((QsmtpModel.Data.Limits.hdrBlock ls).map QsmtpModel.Data.unDotLine).filter (Session.prefixNoCase QsmtpModel.Data.receivedName)).length = n := by
+  intro ls
+  have hl : (DOT :: (QsmtpModel.Data.receivedName ++ [32, 120]) : List Byte).isEmpty = false := rfl
+  have hb : QsmtpModel.Data.Limits.hdrBlock ls = ls := by
+    unfold QsmtpModel.Data.Limits.hdrBlock
+    simp only [ls]
+    induction n with
+    | zero => rfl
+    | succ n ih => simp [List.replicate_succ, ih]
+  have h1 : QsmtpModel.Data.Limits.countsAsHop (DOT :: (QsmtpModel.Data.receivedName ++ [32, 120])) = false := by decide
+  have h2 : Session.prefixNoCase QsmtpModel.Data.receivedName (QsmtpModel.Data.unDotLine (DOT :: (QsmtpModel.Data.receivedName ++ [32, 120]))) = true := by decide
+  rw [hb]
+  constructor
+  · unfold QsmtpModel.Data.Limits.receivedCount
+    simp only [ls, List.filter_replicate, h1]; simp
+  · simp only [ls, List.map_replicate, List.filter_replicate, h2]; simp
+
 end QsmtpModel.Props.C15
